@@ -61,21 +61,15 @@ theorem level_comparators_only_expected (e : Dialect × Kind × Cmp) (h : e ∈ 
     e.2.2 = (expectedOrientation e.2.1).comparator :=
   Lemmas.Dialects.comparators_only_expected e h
 
-/-- On every executed dialect other than SQLite the three uses of infinity work: the hard-coded
-Bayes-factor literal `cast('Infinity' as float8)` is +∞, comparing it with the dialect's
-`infinity_expression` is TRUE, and `log2(infinity_expression)` is +∞. -/
-theorem infinity_consistent (d : DialectEntry) (h : d ∈ Gen.dialectTable) (hs : d.dialect ≠ .sqlite)
+/-- On every executed dialect — SQLite included, since the repair of K6 (the SQLite dialect now writes the numeric
+literal `9e999`, which SQLite reads as +∞, where it used to write the text `'infinity'`, which casts to 0.0) — the three
+uses of infinity work: the Bayes-factor literal `_bayes_factor_sql` emits for `u = 0` is +∞, comparing it with the
+dialect's `infinity_expression` is TRUE, and `log2(infinity_expression)` is +∞.  (Before the repair this theorem
+excluded SQLite and its negation `sqlite_infinity_is_not_infinite` was proved; a regression brings the failure back
+because the table is regenerated from the running backends.) -/
+theorem infinity_consistent (d : DialectEntry) (h : d ∈ Gen.dialectTable)
     (p : InfinityProbe) (hp : d.infinity = some p) : p.ok = true :=
-  Lemmas.Dialects.infinity_ok d h hs p hp
-
-/-- The documented exception (known finding K6): on SQLite `cast('Infinity' as float8)` is NOT
-+∞ (it is 0.0) and does not compare equal to `'infinity'`, so a level with u = 0 cannot be scored
-(`log2(0)` raises).  A proved negation: if SQLite's infinity is repaired this theorem stops
-checking and K6 must be retired together with it. -/
-theorem sqlite_infinity_is_not_infinite :
-    ∃ d ∈ Gen.dialectTable, d.dialect = .sqlite ∧
-      ∃ p, d.infinity = some p ∧ p.bfLiteralIsPosInf = false ∧ p.exprDetectsBfLiteral = false :=
-  Lemmas.Dialects.sqlite_not_infinite
+  Lemmas.Dialects.infinity_ok d h p hp
 
 /-- `array_first_index`: on every executed dialect that has arrays, the emitted first-element
 access returns the first element of a three-element array. -/
